@@ -18,14 +18,16 @@
                 has since 47c8f66: entries <= capacity + calls in flight),
                 occupancy_bound (either loop: ... + fruitless full-ring scans not yet
                 made up for), entries_le_counter_plus_inflight,
-                foreach_no_duplicates (ForEach concurrent with writers)
+                foreach_no_duplicates (ForEach concurrent with writers),
+                concurrent_runs_linearize + legal_history_is_a_map (the map clause under
+                concurrency: the lock sections are linearization points of a finite map)
      partial  : none
      refuted  : occupancy_bound_refuted — a regression lemma about the OLD spill loop
                 (rescan = false) only; finding swc-sparse-scan-race is fixed
      (count_eq_entries_at_quiescence now covers Clear: the defect clear-count-race
       was fixed in /repo by aae41ee and the model follows the repaired code) *)
-From Sdns Require Import Common.Base Common.GoList Gen.C16 C16.Model C16.Conc C16.Limiter.
-From Sdns Require Import C16.Proofs_cyc C16.Proofs_tab C16.Proofs_wf C16.Proofs_more C16.Proofs_seg C16.Proofs_hist C16.Proofs_conc C16.Proofs_evict C16.Proofs_cap C16.Proofs_gen C16.Proofs_lim C16.Proofs_float.
+From Sdns Require Import Common.Base Common.GoList Gen.C16 C16.Model C16.Conc C16.Limiter C16.Lin.
+From Sdns Require Import C16.Proofs_cyc C16.Proofs_tab C16.Proofs_wf C16.Proofs_more C16.Proofs_seg C16.Proofs_hist C16.Proofs_conc C16.Proofs_evict C16.Proofs_cap C16.Proofs_gen C16.Proofs_lim C16.Proofs_float C16.Proofs_lin.
 Open Scope nat_scope.
 
 (* 1. The table invariant (power-of-two length >= 8, no key twice, every probe
@@ -284,6 +286,79 @@ Theorem foreach_no_duplicates : forall (mix : N -> N) (sidx : nat -> N -> nat) (
   forall tid l, In (tid, ObAll l) (c_obs s) -> NoDup (map fst l).
 Proof. exact Proofs_conc.foreach_no_duplicates. Qed.
 Print Assumptions foreach_no_duplicates.
+
+(* 12c. The map clause of the property for ALL interleavings of concurrent readers and
+        writers.  Lin.v reads every lock section of the interleaving model that touches a
+        segment's table as one operation on the whole map, with the result the Go call
+        returns (run_log = the run of Conc.v plus the operations in the order they
+        happened).  For every schedule of any number of threads running
+        SetWithCap/Set/PutIfNotExists/Del/CompareAndSwap/CompareAndDelete/Clear/Get/ForEach,
+        either spill loop: that sequence is a LEGAL history of the sequential finite-map
+        specification [legal] starting from the initial content, and the segment tables
+        hold exactly what the history leaves ([reg]) — the lock sections are linearization
+        points.  What [legal] means is spelled out by the second theorem. *)
+Theorem concurrent_runs_linearize : forall (mix : N -> N) (sidx : nat -> N -> nat) (eoff : N -> Z) (rescan : bool),
+  (forall n k, 0 < n -> sidx n k < n) ->
+  forall m0 progs sched, SWF mix sidx m0 ->
+  let r := run_log mix sidx eoff rescan (init m0 progs) sched in
+  fst r = run mix sidx eoff rescan (init m0 progs) sched /\
+  legal (sabs sidx m0) (snd r) = true /\
+  forall k, sabs sidx (c_map (fst r)) k = reg (snd r) k (sabs sidx m0 k).
+Proof. exact Proofs_lin.runs_linearize. Qed.
+Print Assumptions concurrent_runs_linearize.
+
+(* In a legal history (l1 = everything before the operation in question; reg l1 k = the
+   value most recently stored under k by l1 unless a later operation of l1 removed or
+   evicted it; distinct keys are distinct registers, zero included):
+   a Get yields exactly that value; every entry a ForEach segment yields is current;
+   an insert's eviction takes only present keys and never the key it is writing;
+   CompareAndSwap / CompareAndDelete hit iff the identical value is current. *)
+Theorem legal_history_is_a_map : forall (val : N -> option N) l1 l2,
+  (forall tid k r, legal val (l1 ++ LGet tid k r :: l2) = true -> r = reg l1 k (val k)) /\
+  (forall tid l k v, legal val (l1 ++ LScan tid l :: l2) = true -> In (k, v) l -> reg l1 k (val k) = Some v) /\
+  (forall tid own ks, legal val (l1 ++ LEvict tid own ks :: l2) = true ->
+     ~ In own ks /\ forall g, In g ks -> reg l1 g (val g) <> None) /\
+  (forall tid k old v hit, legal val (l1 ++ LCas tid k old v hit :: l2) = true ->
+     (hit = true <-> reg l1 k (val k) = Some old)) /\
+  (forall tid k old hit, legal val (l1 ++ LCad tid k old hit :: l2) = true ->
+     (hit = true <-> reg l1 k (val k) = Some old)).
+Proof.
+  intros val l1 l2. repeat split.
+  - intros tid k r. apply legal_get_latest.
+  - intros tid l k v. apply legal_scan_latest.
+  - apply (legal_evict_own val l1 tid own ks l2 H).
+  - apply (legal_evict_own val l1 tid own ks l2 H).
+  - apply (legal_cas_identity val l1 tid k old v hit l2 H).
+  - apply (legal_cas_identity val l1 tid k old v hit l2 H).
+  - apply (legal_cad_identity val l1 tid k old hit l2 H).
+  - apply (legal_cad_identity val l1 tid k old hit l2 H).
+Qed.
+Print Assumptions legal_history_is_a_map.
+
+(* a run with the code's own hashes: thread 1 reads value 1 under key 5, thread 2 stores
+   value 2 over it, thread 1's CompareAndDelete(5, 1) then misses — the stale reader does
+   not delete the fresh value (the reason positive_cache.go / negative_cache.go use it) *)
+Definition lin_progs : list (list call) := [[CSwc 5 1 10]; [CGet 5; CCad 5 1]; [CSwc 5 2 10]].
+Definition lin_sched : list nat := repeat 0 10 ++ [1; 1] ++ repeat 2 10 ++ repeat 1 10.
+Example ex_lin :
+  let r := run_log go_mix go_sidx go_eoff true (init (new_segmap 4 0) lin_progs) lin_sched in
+  snd r = [LStore 0 5 1; LGet 1 5 (Some 1%N); LStore 2 5 2; LCad 1 5 1 false] /\
+  quiescent (fst r) = true /\ legal (fun _ => None) (snd r) = true /\ reg (snd r) 5 None = Some 2%N.
+Proof. vm_compute. repeat split; reflexivity. Qed.
+(* the linearization search of Run.v (CaseLin) accepts a concurrent history that has a legal
+   order and rejects the classical anomalies: stale read after a completed overwrite,
+   CompareAndSwap success against a value that was not current, lost delete, two
+   CompareAndSwaps winning against one value, a value surfacing under another key *)
+Example ex_linearizable :
+  linearizable [mk_hop (LStore 0 7 70) 1 4; mk_hop (LGet 1 7 None) 2 3; mk_hop (LGet 1 7 (Some 70%N)) 5 6;
+                mk_hop (LCas 0 7 70 80 true) 7 10; mk_hop (LGet 1 7 (Some 80%N)) 8 9; mk_hop (LCad 2 7 70 false) 11 12] = true /\
+  map linearizable
+    [[mk_hop (LStore 0 7 70) 1 2; mk_hop (LStore 1 7 80) 3 4; mk_hop (LGet 2 7 (Some 70%N)) 5 6];
+     [mk_hop (LStore 0 7 70) 1 2; mk_hop (LStore 1 7 80) 3 4; mk_hop (LCas 2 7 70 90 true) 5 6];
+     [mk_hop (LStore 0 7 70) 1 2; mk_hop (LRem 1 7) 3 4; mk_hop (LGet 2 7 (Some 70%N)) 5 6];
+     [mk_hop (LStore 0 7 70) 1 2; mk_hop (LCas 1 7 70 80 true) 3 6; mk_hop (LCas 2 7 70 90 true) 4 5];
+     [mk_hop (LStore 0 7 70) 1 2; mk_hop (LGet 1 8 (Some 70%N)) 3 4]] = [false; false; false; false; false].
+Proof. vm_compute. split; reflexivity. Qed.
 
 (* 13. No writer waits on a lock while holding one; there are only per-segment locks. *)
 Theorem no_nested_locks : forall (mix : N -> N) (sidx : nat -> N -> nat) (eoff : N -> Z) (rescan : bool),
